@@ -1,10 +1,16 @@
 """C14 - streamed text stops before stop sequences and is whole UTF-8.
 
 Tie: (P) the four helpers of runner/common/stop.go, utf8.ValidString and flushPending are run on generated
-and exhaustively enumerated byte strings and compared with the Coq model (Runner/Stop.v); (S) the per-token
-loop of the real ollamarunner processBatch is driven with scripted pieces (harness c14run, added with the
-runner harness) and compared with the model's `run`.  Monitor: the property evaluated on what the
-implementation returned (stop-freeness of the truncated output, prefix, validity).
+and exhaustively enumerated byte strings and compared with the Coq model (Runner/Stop.v); (S) whole scripted
+generations are pushed through the REAL ollamarunner Server (NewSequence, LoadCacheSlot, processBatch,
+flushPending, removeSequence; in "http" mode also the real completion handler and run loop) by harness c14run:
+the i-th sampled token decodes to the i-th scripted piece (arbitrary bytes) or is EOS.  Everything sent on
+Sequence.responses, pendingResponses/numPredicted after every batch, and the done reason are compared with the
+model's `run`/`settle`/`trace` (Runner/StopCorr.v chk_run, chk_trace).  Monitor: the property itself evaluated on
+the observation in Python, independently of the model (prefix; ends immediately before the earliest stop and
+contains none, else ends at EOS / the limit; valid text => every piece whole UTF-8 and stop-free; reason).
+(T) llamarunner's loop cannot be executed without llama.cpp objects: its statements are required to be identical
+to ollamarunner's (harness twin, go/ast).
 """
 import itertools
 from lib import vlib
@@ -149,13 +155,21 @@ def nontrivial(c, o):
 
 
 def run(ctx):
-    ctx.rule = ("cases: random texts over {a,b,c,space,e-acute,euro,emoji,...} with stops planted whole/partially/split across pieces, "
+    ctx.rule = ("helper cases: random texts over {a,b,c,space,e-acute,euro,emoji,...} with stops planted whole/partially/split across pieces, "
                 "plus every byte string up to length %d over UTF-8 class representatives (exhaustive); non-trivial = a stop was found / suffix held / "
-                "truncation changed the pieces / string of >= 2 bytes; distinct = by canonical JSON of the case" % (3 if ctx.quick() else 4))
+                "truncation changed the pieces / string of >= 2 bytes.  run cases: scripted generations (token pieces + EOS position, stops, limit) through the real "
+                "ollamarunner processBatch, classes %s, server configuration (cache none/stub/stub-nopartial, batch 1..64, context 4..256 with shifts, 1-3 sequences, "
+                "step or http mode) drawn at random, plus every token list up to length %d over {a,b,c3,a9,empty,EOS}; non-trivial = something was streamed and the "
+                "case has a stop or a multi-byte piece; distinct = by canonical JSON of the case" % (3 if ctx.quick() else 4, ",".join(RUN_CLASSES), 3 if ctx.quick() else 5))
     ctx.trusted = ["Coq 8.16.1 kernel + vm_compute", "hand-written model coq/Runner/Stop.v tied to the code by this differential run only",
-                   "Go harness harness/cmd/c14 and overlay export VerifFlush (add-only, build tag verif)", "python case generator and monitor (props/c14.py)"]
+                   "Go harness harness/cmd/c14 and overlay export VerifFlush (add-only, build tag verif)",
+                   "Go harness harness/cmd/c14run: scripted model/TextProcessor/backend/cache stub behind the real Server (overlay c14run.go, model/c14.go, add-only); "
+                   "its step mode copies the slot-assignment block of (*Server).completion, its http mode calls the real handler",
+                   "llamarunner is tied only syntactically (harness twin: same statements as ollamarunner)", "python case generator and monitor (props/c14.py)"]
     ctx.assumptions = ["stop strings are non-empty in the theorems (an empty stop string is contained in every text)",
-                       "C14_stop_free / C14_prefix assume no mid-stream flush had to drop invalid bytes (holds when the generated text is valid UTF-8)"]
+                       "prefix / stop-freeness / exactness assume the generated text is (a prefix of) valid UTF-8 (C14_*_partial, C14_valid_text_lossless); "
+                       "without it they are refuted (C14_prefix_refuted, C14_stop_free_refuted; known finding C14-invalid-utf8-dropped)",
+                       "contexts so small that a stop spans more tokens than the input cache holds after a shift are excluded (the stop branch's cache trimming panics there: cache matter, C07)"]
     ctx.proof_stage(["Runner"], "Runner/Properties_C14.v", extra_targets=["Runner/StopCorr.v"])
     binp = ctx.go_build("c14")
     if not binp:
@@ -256,6 +270,17 @@ def rnd_stop(rng):
 def gen_seq(rng, klass):
     """-> dict(pieces=[bytes], eos=index or None, stops=[bytes], limit=int)"""
     stops, limit, eos = [], 0, "end"
+    if klass == "empty-pieces":
+        # any structured class, with empty pieces forced in below (also first, last, inside a stop / a character)
+        q = gen_seq(rng, rng.choice(["mb-split", "byte-fallback", "stop-split", "stop-recur", "prefix-stops", "eos-pending"]))
+        toks = list(q["pieces"])
+        eos_at = q["eos"]
+        for _ in range(rng.randint(1, 3)):
+            i = rng.randint(0, len(toks))
+            toks.insert(i, b"")
+            if eos_at is not None and i <= eos_at:
+                eos_at += 1
+        return {"pieces": toks, "eos": eos_at, "stops": q["stops"], "limit": q["limit"] + (1 if q["limit"] and rng.random() < 0.5 else 0)}
     if klass == "mb-split":
         t = text(rng, rng.randint(2, 7), 0.6)
         pieces = tok_mb(rng, t)
@@ -317,7 +342,7 @@ def gen_seq(rng, klass):
         pieces = [rng.choice(alpha) for _ in range(rng.randint(0, 8))]
         stops = [b"".join(rng.choice(alpha[:4] + alpha[9:]) for _ in range(rng.randint(1, 3))) or b"a" for _ in range(rng.randint(0, 3))]
     # common perturbations
-    if rng.random() < 0.15 or klass == "empty-pieces":
+    if rng.random() < 0.15:
         for _ in range(rng.randint(1, 3)):
             pieces.insert(rng.randint(0, len(pieces)), b"")
     if klass not in ("stop-at-limit", "limit-pending") and rng.random() < 0.3:
@@ -411,7 +436,7 @@ def gen_run_cases(ctx):
                 cases.append(c)
         except Exception:
             pass
-    n = 60 if ctx.quick() else 900
+    n = 100 if ctx.quick() else 900
     for klass in RUN_CLASSES:
         for _ in range(n):
             k = 1 if rng.random() < 0.85 else rng.randint(2, 3)
@@ -569,11 +594,11 @@ def shrink_run(ctx, binp, c, si, klass):
     return c2
 
 
-def run_stage(ctx):
+def run_stage(ctx, cases=None):
     binp = ctx.go_build("c14run")
     if not binp:
         return
-    cases = gen_run_cases(ctx)
+    cases = cases if cases is not None else gen_run_cases(ctx)
     obs, err = ctx.run_jsonl(binp, cases)
     if obs is None or len(obs) != len(cases):
         ctx.obligation("harness c14run answered every case", False, err)
@@ -597,7 +622,7 @@ def run_stage(ctx):
             nontriv = nontriv or len(so["outs"]) > 0 and (len(q["stops"]) > 0 or any(len(t) > 2 and t != "EOS" for t in q["toks"]))
             for klass, msg in monitor_seq(c, q, so, o):
                 rep = {"case": c, "sequence": si, "impl": o, "replay_cmd": "echo '<case json>' | build/bin/c14run"}
-                if klass not in shrunk and len(shrunk) < 6:
+                if klass not in shrunk and len(shrunk) < 6 and not vlib.match_known(ctx.known, {"op": "run", "class": klass}):
                     shrunk.add(klass)
                     m = shrink_run(ctx, binp, c, si, klass)
                     if m:
@@ -673,6 +698,19 @@ def replay(ctx, path):
     import json
     r = json.load(open(path))
     ctx.log("replaying", path)
+    rp = r.get("replay") or {}
+    cases = [c for c in (rp.get("minimal_case"), rp.get("case")) if isinstance(c, dict) and c.get("op") == "run"]
+    for d in r.get("disagreements", []):
+        c = (d.get("case") or {}).get("case")
+        if isinstance(c, dict) and c.get("op") == "run":
+            cases.append(c)
+    if cases:
+        # a scripted generation: run exactly these cases through the real loop, the monitor and the model
+        for c in cases:
+            c.setdefault("klass", "replay")
+        ctx.proof_stage(["Runner"], "Runner/Properties_C14.v", extra_targets=["Runner/StopCorr.v"])
+        run_stage(ctx, cases)
+        return
     run(ctx)
 
 
@@ -685,13 +723,18 @@ MANIFEST = {
     "engine": "coq-model+go-differential",
     "level_claimed": {
         "category": "proof",
-        "text": "Coq theorems over the streaming state machine (any token list, stop set, limit): streamed text is a prefix of the generated text, "
-                "never contains a stop, generation ends at the first token that completes a stop, every streamed piece is valid UTF-8. "
-                "The hand-written model is tied to runner/common/stop.go, utf8.ValidString and flushPending by a differential run "
-                "(random + exhaustive short byte strings) evaluated inside Coq with vm_compute; the property is also monitored directly on the implementation's outputs.",
+        "text": "Coq theorems over the streaming state machine of processBatch (any token list incl. EOS, any stop set, any limit): when the generated text is "
+                "(a prefix of) valid UTF-8 the streamed text is a prefix of it, never contains a stop, every streamed piece is whole UTF-8 and stop-free, a running "
+                "sequence has generated no stop yet, a finished one streamed exactly the text up to EOS/limit or up to the EARLIEST stop (less a character cut at the "
+                "end), and the reason is length iff the limit check ended it; without the valid-text hypothesis prefix/stop-freeness are refuted (known finding "
+                "C14-invalid-utf8-dropped).  The hand-written model is tied to the code on every run: (P) runner/common/stop.go helpers, utf8.ValidString and "
+                "flushPending on random + exhaustive short byte strings; (S) whole scripted generations through the REAL ollamarunner Server.processBatch / "
+                "NewSequence / removeSequence / completion handler (scripted model+TextProcessor behind an overlay shim) compared batch by batch with the model's "
+                "run/settle/trace inside Coq (vm_compute); the property itself is monitored in Python on every observation; (T) llamarunner, which cannot run "
+                "without llama.cpp, is required to consist of the same statements as ollamarunner (go/ast twin check).",
         "design_ref": "DESIGN.md section 5, C14",
     },
-    "level_note": "Trusted: Coq kernel/vm_compute; the model-to-code tie is differential testing (generator-bounded); theorems assume non-empty stop strings "
-                  "and that no mid-stream flush dropped invalid bytes (true for valid UTF-8 generations).",
+    "level_note": "Trusted: Coq kernel/vm_compute; the model-to-code tie is differential testing (generator-bounded) through a scripted fake model/backend; llamarunner is "
+                  "tied syntactically only; theorems assume non-empty stop strings and, for prefix/stop-freeness/exactness, valid UTF-8 generated text.",
     "technique": "Coq proof (invariant by induction over the token list) + model/implementation differential check",
 }
